@@ -274,7 +274,7 @@ def run_table_check(prop, tier, seed, replay, checker, layers, soft_codes, kinds
             common.write_replay(prop, seed, 'known-' + common.digest(key)[:8], payload)
         else:
             violations.append((common.write_replay(prop, seed, common.digest((key, i))[:8], payload), False))
-        if len(violations) >= 6:
+        if len(violations) >= 12:
             break
     # the vault sweep (C01): exhaustive small scope at Row level
     sweep_cov = {}
